@@ -117,10 +117,11 @@ type tableMon struct {
 	auditPrev          map[string]string
 
 	// C08
-	lastSettledMs int64
-	waitingNext   bool
-	extraMs       int64 // injected slowness since the last settlement
-	c08off        string
+	lastSettledMs  int64
+	lastMemberOpMs int64
+	waitingNext    bool
+	extraMs        int64 // injected slowness since the last settlement
+	c08off         string
 
 	missedHands map[string]int
 	everDealt   map[string]bool
